@@ -849,7 +849,8 @@ func (x *Exec) mapNames(t types.Type) (string, string, *Sort, *Sort) {
 	mt := t.Underlying().(*types.Map)
 	ks := x.eng.tm.sortOf(mt.Key())
 	vs := x.eng.tm.sortOf(mt.Elem())
-	return "MapV_" + ks.Mangle() + "_" + vs.Mangle(), "MapD_" + ks.Mangle() + "_" + vs.Mangle(), ks, vs
+	tn := shortTypeName(types.NewMap(mt.Key(), mt.Elem()))
+	return "MapV_" + tn, "MapD_" + tn, ks, vs
 }
 
 func (x *Exec) mapHas(s *State, t types.Type, m, k *Term) *Term {
